@@ -57,6 +57,8 @@ structure Ctx where
   saveSp : Nat       -- number of values on the stack
   saveCsp : Nat      -- number of frames on the control stack
   saveCg : Val       -- command_giver
+  saveLd : Int := 0  -- num_objects_this_thread (load_object nesting guard)
+  saveRd : Val := 0  -- restrict_destruct
   deriving DecidableEq, Repr, Inhabited
 
 /-- catch_value / the value a catch expression yields -/
@@ -138,17 +140,18 @@ def dropTop (m : M) : Option M :=
 def saveContext (m : M) : Option (Ctx × M) :=
   if m.cs.length ≥ m.maxDepth then none
   else
-    let e : Ctx := { saveSp := m.vs.length, saveCsp := m.cs.length, saveCg := m.cg }
+    let e : Ctx := { saveSp := m.vs.length, saveCsp := m.cs.length, saveCg := m.cg,
+                     saveLd := m.loadDepth, saveRd := m.restrictDestruct }
     some (e, { m with ctxs := e :: m.ctxs })
 
 /-- pop_context: unlink (`current_error_context = econ->save_context`, here the chain the construct remembered
     when it saved) and clear the error state -/
 def popContext (link : List Ctx) (m : M) : M := { m with ctxs := link, errState := 0 }
 
-/-- restore_context, exactly as coded: command_giver; if csp > save_csp then csp = save_csp + 1 and ONE
+/-- restore_context, exactly as coded: command_giver and the two guards (restore_object_limits); if csp > save_csp then csp = save_csp + 1 and ONE
     pop_control_stack; then pop_n_elems (sp - save_sp) — a negative difference converts to a huge size_t -/
 def restoreContext (e : Ctx) (m : M) : Res :=
-  let m1 := { m with cg := e.saveCg }
+  let m1 := { m with cg := e.saveCg, loadDepth := e.saveLd, restrictDestruct := e.saveRd }
   let m2? : Option M :=
     if m1.cs.length > e.saveCsp then
       popFrame { m1 with cs := m1.cs.drop (m1.cs.length - (e.saveCsp + 1)) }
